@@ -1,6 +1,6 @@
 //! C08 — exactly the well-formed AIVDM/AIVDO sentence shapes are accepted.
 
-use crate::adapter::{Config, STD};
+use crate::adapter::{configs, Config, STD};
 use crate::engine::{Ctx, Input, Line, Rec, Verdict};
 use crate::gen::sentence::wellformed_spec;
 use crate::props::hist::{gate, Gate};
@@ -177,6 +177,11 @@ fn near_misses() -> Vec<Vec<u8>> {
         f("1", "1", "", "A", "15", "0", Some("XX"), "", ""),
         f("1", "1", "", "A", "15", "0", None, "", "\r\n"),
         f("1", "1", "", "A", "15", "0", None, "", ",extra"),
+        f("1", "1", "", "A", "15", "0", None, "", "*"),
+        f("1", "1", "", "A", "15", "0", None, "", " *00"),
+        f("1", "1", "", "A", "15", "0", None, "", "!AIVDM,1,1,,B,w,5*00"),
+        f("1", "1", "", "A", "15", "0", None, "\\s:1*FF\\", ""),
+        f("1", "1", "", "A", "15", "0", None, "\\c:1241544035*53\\", ""),
         f("1", "1", "", "A", "15", "0", None, " ", ""),
         f("1", "1", "", "A", "15", "0", None, "x", ""),
         f("1", "1", "", "A", "15", "0", None, "\\s:1\\", ""),
@@ -234,6 +239,15 @@ pub fn run(ctx: &mut Ctx) {
     let n = ctx.tier.pick(150_000, 1_000_000);
     let wf = wellformed_spec().prop_map(|s| Input::History { lines: vec![Line::new(s.render(), false)] });
     ctx.run_proptest("generated-wellformed", &STD, n, wf, check);
+    // the shape rules are the same in the alloc and no-allocator builds (lines above the no-allocator
+    // payload capacity are excluded there)
+    for cfg in configs().into_iter().skip(1) {
+        let wf = wellformed_spec().prop_map(|s| Input::History { lines: vec![Line::new(s.render(), false)] });
+        ctx.run_proptest("generated-wellformed", cfg, n / 3, wf, check);
+        for m in near_misses() {
+            ctx.sweep_case("near-misses", cfg, &Input::History { lines: vec![Line::new(m, false)] }, check);
+        }
+    }
     // generated sentence, one random edit, checksum re-fixed half the time
     let mutated = (wellformed_spec(), any::<u16>(), 0u8..3, any::<u8>(), any::<bool>()).prop_map(|(s, pos, kind, byte, fix)| {
         let mut b = s.render();
